@@ -60,7 +60,9 @@ func runSerialCollect(sc int, c *serialCase, emit func(serialEv)) {
 		}
 		mu.Lock()
 		rec("exit", cc, i)
-		done[cc] = i
+		if cc >= 0 && cc < len(done) { // a torn message (two readers on one connection) can carry any id
+			done[cc] = i
+		}
 		mu.Unlock()
 		select {
 		case prog <- struct{}{}:
